@@ -28,6 +28,8 @@ def run(ck: Check) -> None:
         thr = rng.randint(1, len(ks))
         trusted = gen.envelope(gen.delegating_md("root", {R: gen.delegation(ks, thr), "zz": gen.delegation([gen.key(9)], 1)}, version=2))
         signed = gen.delegating_md(T, {"root": gen.delegation(ks, 1)}, version=rng.randint(1, 3))
+        if i % 4 == 1:
+            signed["delegations"] = {}          # delegating metadata that delegates nothing (the builder's default) is still typed
         if i % 3 == 0:
             # any well-formed metadata is typed, whatever its dates say: expiry before / equal to the timestamp, far past, far future, odd-but-accepted spellings
             ts, ex = rng.choice([("2020-07-13T05:46:45Z", "2020-07-13T05:46:45Z"), ("2021-01-01T00:00:00Z", "2020-01-01T00:00:00Z"), ("9999-12-31T23:59:59Z", "0001-01-01T00:00:00Z"),
